@@ -20,7 +20,14 @@ import (
 	"time"
 )
 
-const verifDir = "/verif"
+// verifDir is the root of the verification tree (VERIF_DIR overrides it so that a
+// snapshot copy can run without touching /verif).
+var verifDir = func() string {
+	if d := os.Getenv("VERIF_DIR"); d != "" {
+		return d
+	}
+	return "/verif"
+}()
 
 // caseResult is what a worker reports for one case.
 type caseResult struct {
